@@ -158,6 +158,16 @@ def _gen_edit_any(rng, state):
         return e
     files = gen.tree_files(tree)
     dirs = gen.tree_dirs(tree)
+    if k < 0.80 and dirs and rng.random() < 0.5:
+        # rename a whole folder in place (not a nested history root, nothing nested inside it)
+        cands = [d for d in dirs if not any(n == d or n.startswith(d + "/") or d.startswith(n + "/") for n in state["nested"])]
+        if cands:
+            src = rng.choice(cands)
+            dst = os.path.join(os.path.dirname(src), "rendir_%d" % rng.randrange(99))
+            if dst not in tree:
+                for key in [x for x in list(tree) if x == src or x.startswith(src + "/")]:
+                    tree[dst + key[len(src):]] = tree.pop(key)
+                return {"op": "rename", "src": src, "dst": dst, "fault": "rename_dir"}
     if k < 0.85 and files:
         src = rng.choice(files)
         parent = rng.choice([""] + dirs)
@@ -201,6 +211,19 @@ def generate(rng, tier, weights=None, max_ops=None, hostile=0.2):
     # nested histories: created on sub-directories before/after the outer root
     if rng.random() < weights.get("nested", 0.45):
         state["nested"] = scen.subroots_of(tree, rng, 3)
+        if state["nested"] and rng.random() < 0.3:
+            # siblings whose names merely START with the name of a nested history folder (N_proxy/, N.txt, "N 2")
+            n = rng.choice(state["nested"])
+            for suffix, is_dir in rng.sample([("_proxy", True), (".txt", False), (" 2", True), ("-B", True), ("x", False)], 2):
+                rel = n + suffix
+                if rel in tree:
+                    continue
+                if is_dir:
+                    tree[rel] = {"t": "d"}
+                    tree[rel + "/p.bin"] = {"t": "f", "c": gen.unique_content(rng)}
+                else:
+                    tree[rel] = {"t": "f", "c": gen.unique_content(rng)}
+            state["tree"] = dict(tree)
         if rng.random() < 0.25:
             # a nested history that later generations of the parent may ignore completely (-i skipme)
             tree.setdefault("skipme", {"t": "d"})
